@@ -123,6 +123,24 @@ class Sim(Layout):
         if isinstance(st, ast.FunctionDef):
             env[st.name] = Closure(st, env, fi)
             return
+        if isinstance(st, ast.While):
+            from .layout import _Break, _Continue
+            rounds = 0
+            broke = False
+            while self.test(st.test, env, fi):
+                rounds += 1
+                if rounds > 60:
+                    raise LayoutUnknown("while loop does not end within 60 rounds at %s:%d" % (fi.qualname if fi else "?", st.lineno))
+                try:
+                    self.block(st.body, env, fi)
+                except _Continue:
+                    continue
+                except _Break:
+                    broke = True
+                    break
+            if not broke and st.orelse:
+                self.block(st.orelse, env, fi)
+            return
         # assertions are part of the behaviour a scenario observes: a failing one ends the run like the AssertionError would
         if isinstance(st, ast.Assert) and getattr(self, "check_asserts", False):
             try:
